@@ -15,6 +15,8 @@ import (
 	"verifharness/internal/c07"
 	"verifharness/internal/c08"
 	"verifharness/internal/c09"
+	"verifharness/internal/c10"
+	"verifharness/internal/c12"
 	"verifharness/internal/c13"
 	"verifharness/internal/c14"
 	"verifharness/internal/c15"
@@ -39,6 +41,8 @@ var subs = map[string]sub{
 	"c03": c03.Run,
 	"c05": c05.Run,
 	"c13": c13.Run,
+	"c10": c10.Run,
+	"c12": c12.Run,
 	"c08": c08.Run,
 	"c09": c09.Run,
 	"c14": c14.Run,
